@@ -1240,7 +1240,10 @@ struct W1
           std::string rec;
           rec.reserve (96);
           rec += "S" + itos (pre.size) + "," + itos (pre.cap) + "|";
-          rec += op_to_token (op);
+          {
+            Op plain = op; plain.f1 = 0; plain.f2 = 0;   // fault numbering differs between flavours
+            rec += op_to_token (plain);
+          }
           rec += "|X"; rec += exc_name (cx.exc);
           rec += "|R" + itos (cx.has_ret ? cx.ret_idx : -1);
           rec += "|s" + itos (tr.post_size) + ",c" + itos (tr.post_cap) + "|v";
